@@ -294,6 +294,24 @@ fn e1_main(a: &Args) -> i32 {
                 }
             }
         }
+        // the run asked for environment variables the generator does not know: make them a fault
+        if !rep.env_reads.is_empty() && rep.crashed.is_none() {
+            for name in rep.env_reads.iter().take(4) {
+                for val in ["1", "0", "strict"] {
+                    let mut variant = run2.clone();
+                    variant.ambient.env.retain(|(k, _)| k != name);
+                    variant.ambient.env.push((name.clone(), val.to_string()));
+                    variant.schedule = Some(rep.choices.clone());
+                    let r = e1::exec_in_child(&variant, &isos2);
+                    extra_execs += 1;
+                    bump(&mut faults, "ambient-env-var-discovered-by-getenv", 1);
+                    if !r.violations.is_empty() {
+                        let f = r.violations.clone();
+                        batch.push((variant.clone(), variant, r, f));
+                    }
+                }
+            }
+        }
         batch.insert(0, (run.clone(), run2.clone(), rep.clone(), found));
         // violations: minimise and persist the first few distinct ones
         for (run, run2, rep, found) in batch {
